@@ -36,13 +36,13 @@ static void try_buf(const uint8_t buf[32], unsigned mask, struct res *r, uint64_
     r->validated++;
 }
 /* families: index space per (image k, mask m) */
-enum { F_BYTE, F_HDR16, F_B2829, F_B2627, F_B28CHK, F_HDRFIX, F_FOOT, F_FLIP2, F_FLIP3, F_N };
-static const char *FN[] = { "byte", "hdr16", "b28b29", "b26b27", "b28chk", "hdr16-rechecked", "hdr16xfooter", "flip2", "flip3" };
+enum { F_BYTE, F_HDR16, F_B2829, F_B2627, F_B28CHK, F_HDRFIX, F_FOOT, F_FLIP2, F_FLIP3, F_BYTEPAIR, F_N };
+static const char *FN[] = { "byte", "hdr16", "b28b29", "b26b27", "b28chk", "hdr16-rechecked", "hdr16xfooter", "flip2", "flip3", "bytepair" };
 static long fam_size(int f) {
     switch (f) {
     case F_BYTE: return 32 * 256; case F_HDR16: return 65536; case F_B2829: return 65536; case F_B2627: return 65536;
     case F_B28CHK: return 256L * 2048; case F_HDRFIX: return 65536; case F_FOOT: return 65536L * 8;
-    case F_FLIP2: return 256L * 256; case F_FLIP3: return 256L * 256 * 256;
+    case F_FLIP2: return 256L * 256; case F_FLIP3: return 256L * 256 * 256; case F_BYTEPAIR: return 496L * 65536;
     }
     return 0;
 }
@@ -65,6 +65,7 @@ static void work(long lo, long hi, struct res *r, void *arg) {
         case F_FOOT: { static const unsigned FT[8] = { 0x7000, 0x0000, 0x7800, 0x6000, 0xF000, 0x3000, 0x5000, 0xF800 };
                        b[8] = (y >> 3) & 0xff; b[9] = (uint8_t)(y >> 11); rseed s; rseed_from_storage(b, &s); set_check(b, ref_check_value(&s), FT[y & 7]); } break;
         case F_FLIP2: { int i = (int)(y / 256), j = (int)(y % 256); if (j <= i) continue; b[i / 8] ^= 1 << (i % 8); b[j / 8] ^= 1 << (j % 8); } break;
+        case F_BYTEPAIR: { long pr = y / 65536; int i = 0, j = 0; for (i = 0; i < 32; i++) { if (pr < 31 - i) { j = i + 1 + (int)pr; break; } pr -= 31 - i; } b[i] = (uint8_t)(y & 0xff); b[j] = (uint8_t)((y >> 8) & 0xff); } break;
         case F_FLIP3: { int i = (int)(y / 65536), j = (int)((y / 256) % 256), l = (int)(y % 256); if (!(i < j && j < l)) continue; b[i / 8] ^= 1 << (i % 8); b[j / 8] ^= 1 << (j % 8); b[l / 8] ^= 1 << (l % 8); } break;
         }
         try_buf(b, mask, r, (uint64_t)x * 16 + FAM, FN[FAM]);
@@ -116,8 +117,8 @@ int main(int argc, char **argv) {
     }
     out_begin();
     for (FAM = 0; FAM < F_N; FAM++) {
-        if (FAM == F_FLIP3 && !G_thorough) continue;
-        int nk = (FAM == F_FLIP3) ? 1 : (FAM == F_B28CHK || FAM == F_FOOT) ? (NK < 4 ? NK : 4) : NK;
+        if ((FAM == F_FLIP3 || FAM == F_BYTEPAIR) && !G_thorough) continue;
+        int nk = (FAM == F_FLIP3 || FAM == F_BYTEPAIR) ? 1 : (FAM == F_B28CHK || FAM == F_FOOT) ? (NK < 4 ? NK : 4) : NK;
         memset(r, 0, sizeof *r);
         par_run(fam_size(FAM) * nk * 3, work, NULL, r);
         char name[100]; snprintf(name, sizeof name, "family %s x %d images x masks{0,5,7}", FN[FAM], nk);
